@@ -8,6 +8,11 @@ export CARGO_NET_OFFLINE=true CARGO_BUILD_JOBS=8
 git -C /repo worktree remove --force $WT 2>/dev/null
 git -C /repo worktree add -q --detach $WT HEAD || exit 2
 declare -A DEMO=(
+ [C04f_case_continue_keeps_fall_through]="-p yash-semantics --test c04f_case_fall_through_then_continue"
+ [C01f_read_at_eof_keeps_old_values]="-p yash-builtin --test c01f_read_at_eof"
+ [C16f_get_scalar_skips_valueless_local]="-p yash-builtin --test c16f_scalar_lookup"
+ [C18f_async_keeps_stdin_when_devnull_fails]="-p yash-semantics --test c18f_async_stdin"
+ [C19f_group_kill_dedups_sigchld]="-p yash-builtin --test c19f_group_kill_sigchld"
  [C17f_newline_skip_hoisted_out_of_retry_loop]="-p yash-syntax -p yash-semantics -E binary(~c17f)"
  [C15f_spawn_enqueues_at_front]="-p yash-executor --test c15f_spawn_fairness"
  [C20f_rejected_exec_retains_redirections]="-p yash-builtin --test c20f_exec_rejected_invocation"
